@@ -150,6 +150,25 @@ def check(P, acc, case, depth=0):
                                        reduced=np.asarray(R).tolist(), only_in_reduced=sorted(S2 - proj)[:3], lost=sorted(proj - S2)[:3],
                                        n_original_solutions=int(len(S)), depth=depth))
         return
+    if depth == 0 and case.get("idx", 0) % 4 == 1 and (forced.any() or rr.any()):
+        # the two halves of the reduction on their own, every fourth system: reduce(rows_vector=reducable_rows()) only (the rows of
+        # reducable_rows_and_columns are reducible only AFTER the substitution, so they are not used here), reduce(columns_vector=...) only
+        try:
+            Rr = mspace_clone(P).reduce(rows_vector=rr.astype(int))
+            Rc = mspace_clone(P).reduce(columns_vector=cols)
+        except BaseException as e:
+            acc.violation(None, case, dict(desc, what="reduce with one vector only raised", exc=repr(e)))
+            return
+        acc.n("transitions", 2)
+        _, p_r, f_r, _, _ = sol_set(Rr)
+        _, p_c, f_c, _, _ = sol_set(Rc)
+        if set(map(tuple, p_r[f_r].tolist())) != set(map(tuple, S.tolist())):
+            acc.violation(None, case, dict(desc, what="dropping only the rows reported by reducable_rows changes the solution set", rows=rr.astype(int).tolist(), reduced=np.asarray(Rr).tolist()))
+            return
+        if set(map(tuple, p_c[f_c].tolist())) != proj:
+            acc.violation(None, case, dict(desc, what="substituting only the forced columns does not give the projection of the solution set",
+                                           columns=[None if np.isnan(c) else float(c) for c in cols], reduced=np.asarray(Rc).tolist()))
+            return
     if depth == 0:
         acc.hist("solutions", "empty" if len(S) == 0 else ("whole box" if len(S) == len(pts) else "proper"))
         acc.hist("reduced_something", bool(forced.any() or rows.any()))
